@@ -63,6 +63,7 @@ def run_real(pexpect, case):
             self.delayafterread = None
             self.exitstatus = 7
             box['child'] = self
+            box['ctor'] = dict(command=command, timeout=timeout, maxread=maxread, logfile=logfile, cwd=cwd, env=env, kw=sorted(kw))
 
         def read_nonblocking(self, size=1, timeout=None):
             if not self.script:
@@ -127,7 +128,15 @@ def run_real(pexpect, case):
             kw = {'encoding': 'latin-1'} if case['unicode'] else {}
             if case.get('window') is not None:
                 kw['searchwindowsize'] = case['window']          # handed on to the spawn object
-            res = runmod.run('cmd', timeout=30, events=ev_arg, withexitstatus=case['withexit'], extra_args=EXTRA, **kw)
+            # the other arguments of run() are the caller's: timeout (a number, None = never, -1 / not given = the default of
+            # spawn), logfile, cwd, env must reach the spawn object as given
+            pt = case.get('passthru') or {}
+            if 'timeout' in pt:
+                kw['timeout'] = pt['timeout']
+            for k_ in ('logfile', 'cwd', 'env'):
+                if k_ in pt:
+                    kw[k_] = PASS_OBJECTS[k_]
+            res = runmod.run('cmd', events=ev_arg, withexitstatus=case['withexit'], extra_args=EXTRA, **kw)
             if case['withexit']:
                 out, status = res
                 box['status'] = status
@@ -141,6 +150,35 @@ def run_real(pexpect, case):
     finally:
         runmod.spawn = real_spawn
     return kind, out, sent, box
+
+
+class _Log:
+    def write(self, s):
+        pass
+
+    def flush(self):
+        pass
+
+
+PASS_OBJECTS = {'logfile': _Log(), 'cwd': '/some/where', 'env': {'A': 'b'}}
+
+
+def passthru_oracle(case, box):
+    pt = case.get('passthru') or {}
+    ctor = box.get('ctor')
+    if ctor is None:
+        return None
+    want_t = 30 if pt.get('timeout', -1) == -1 else pt['timeout']
+    if ctor['timeout'] != want_t or box['child'].timeout != want_t:
+        return 'run(timeout=%r): the spawn object was created with timeout %r (its timeout attribute is %r), expected %r' % (
+            pt.get('timeout', 'not given'), ctor['timeout'], box['child'].timeout, want_t)
+    for k_ in ('logfile', 'cwd', 'env'):
+        want = PASS_OBJECTS[k_] if k_ in pt else None
+        if ctor[k_] is not want:
+            return 'run(%s=%r): the spawn object was created with %s=%r' % (k_, want, k_, ctor[k_])
+    if ctor['maxread'] != 2000:
+        return 'run(): the spawn object was created with maxread=%r' % (ctor['maxread'],)
+    return None
 
 
 def gen_case(rng):
@@ -197,9 +235,28 @@ def gen_case(rng):
         else:
             resp = ('bad',)
         events.append((pat, resp))
+    if len(stream) >= 3 and rng.random() < 0.15:
+        # a family of literal events answered by distinct strings, some nested in or overlapping others (an event listed later may
+        # start earlier and end later): each occurrence must be answered once, by its own response
+        events = []
+        i0 = rng.randrange(len(stream) - 2)
+        l0 = rng.randint(i0 + 3, min(len(stream), i0 + 6))
+        j0 = rng.randint(i0 + 1, l0 - 2)
+        k0 = rng.randint(j0 + 1, l0 - 1)
+        fam = [stream[j0:k0], stream[i0:l0]]
+        if rng.random() < 0.5:
+            fam.append(stream[rng.randrange(len(stream)):][:rng.randint(1, 3)])
+        if rng.random() < 0.3:
+            fam.reverse()
+        for t_ in fam:
+            if t_ and all(t_ != H.rx_src(e[0][1], None) for e in events):
+                events.append((('r', H.lit(t_)), ('send', 'r%d;' % len(events))))
+        as_dict = False
     # a regex that can match the empty string together with a non-stopping response loops forever: exclude
     return {'unicode': uni, 'script': out, 'events': events, 'as_dict': as_dict, 'withexit': rng.random() < 0.3,
-            'window': rng.choice([None, None, None, 1, 2, 3, 6])}
+            'window': rng.choice([None, None, None, 1, 2, 3, 6]),
+            'passthru': dict([('timeout', rng.choice([30, -1, None, 7, 300]))] * (rng.random() < 0.7)
+                             + [(k_, True) for k_ in ('logfile', 'cwd', 'env') if rng.random() < 0.2])}
 
 
 def loops_forever(case):
@@ -289,14 +346,30 @@ def run(ctx):
             if case['withexit'] and (box.get('status') != 7 or not box.get('closed')):
                 bad = 'withexitstatus: returned status %r, child closed=%r' % (box.get('status'), box.get('closed'))
         if not bad and kind == 'ret' and case.get('window') is None:      # (a search window may legitimately hide an occurrence)
-            lits = [(p, r) for p, r in case['events'] if isinstance(p, tuple) and r[0] == 'send' and _is_literal(p[1])]
-            others = [p for p, r in case['events'] if isinstance(p, tuple)]
-            senders = [1 for p, r in case['events'] if r[0] == 'send' or (r[0] == 'cb' and r[1][0] == 'str')]
-            if len(lits) == 1 and len(others) == 1 and len(senders) == 1 and _lit_text(lits[0][0][1]):
-                t = enc(_lit_text(lits[0][0][1]))
-                occurrences = consumed.count(t)
-                if occurrences is not None and len(sent) != occurrences:
-                    bad = 'the event pattern %r occurs %d times in the output %r but its response was sent %d times' % (t, occurrences, consumed[:60], len(sent))
+            # every event a literal pattern answered by a string: the responses, in order, are those of the naive procedure
+            # "after each read, answer the leftmost occurrence (first listed on ties) in the pending text, drop the text up to its
+            # end, look again" - each occurrence answered once, by ITS response
+            evs_ = case['events']
+            if evs_ and all(isinstance(p, tuple) and r[0] == 'send' and _is_literal(p[1]) and _lit_text(p[1]) for p, r in evs_):
+                lits_ = [(enc(_lit_text(p[1])), enc(r[1])) for p, r in evs_]
+                pend, want_sent = enc(''), []
+                for chunk in child.consumed:
+                    pend += chunk
+                    while True:
+                        best = None
+                        for t, resp in lits_:
+                            i = pend.find(t)
+                            if i >= 0 and (best is None or i < best[0]):
+                                best = (i, t, resp)
+                        if best is None:
+                            break
+                        want_sent.append(best[2])
+                        pend = pend[best[0] + len(best[1]):]
+                if list(sent) != want_sent:
+                    bad = 'events %r on the reads %r: the responses sent were %r, each occurrence answered once in order gives %r' % (
+                        [(t, r) for t, r in lits_], child.consumed[:12], list(sent), want_sent)
+        if not bad:
+            bad = passthru_oracle(case, box)
         if not bad and not any(r[0] == 'cb' and r[2] == 'method' for _, r in case['events']):
             bad = state_dict_oracle(box.get('log', []))
         if bad and nhit < 3:
